@@ -55,6 +55,7 @@ def check(run):
     run.rule('D4', 'cell layout: refs = d1&7, exotic = bit 3, stored hashes (bit 4) skipped as (popcount(mask)+1)*(32+2) bytes, completion tag stripped iff d2 odd', 17)
     run.rule('D5', 'dangling, backward and self references raise', 7)
     run.trust('CPython ast', 'checker interpreter', 'sa/bocspec.py encoder (boc.tlb / boc.cpp)')
+    small_scope(run, prog, w, 5 if thorough else 3)
     dags = bocrun.dags(False)
     pick = ['single-empty', 'single-13bits', 'chain3', 'diamond', 'shared-later', 'four-refs', 'merkle-proof', 'ordinary-over-pruned', 'payload256']
     # ---- D1 option space
@@ -252,3 +253,19 @@ def encode_big_with_mask(r, mask):
     payload = root_ser + b''.join(bytes([l.d1(), l.d2()]) + l.data_bytes() for l in r.refs)
     off = 2 if len(payload) > 255 else 1
     return bocspec.MAGIC['generic'] + bytes([1, off]) + bytes([n, 1, 0]) + len(payload).to_bytes(off, 'big') + bytes([0]) + payload
+
+
+def small_scope(run, prog, where, max_n):
+    """small-scope exhaustive family (quick: <= 3 cells; thorough: up to 5): every DAG shape with <= 3 cells (<= 4 references each), 4 cells (<= 3) and 5 cells (<= 2), two content modes"""
+    from .. import smallscope
+    n, res = smallscope.run_family(prog, 'reader', max_n)
+    run.count('small_scope_dags', n)
+    bad = [r for r in res if r[2] != 'ok']
+    if any(r[2] == 'undecided' for r in res):
+        raise AnalysisError(f'small-scope family: {[r for r in res if r[2] == "undecided"][0]}')
+    run.evaluations += len(res)
+    for tag, opt, st, detail in res:
+        if st == 'ok':
+            run.ok('D1', f'small:{tag}{list(opt)}')
+    for tag, opt, st, detail in bad[:3]:
+        run.fail('D1', 'Boc.deserialize[small-scope DAG]', f'{tag} with options {opt}: {detail}  ({len(bad)} of {len(res)} small-scope cases fail)', where, witness=dict(dag=tag, opt=[str(o) for o in opt]))
